@@ -1,9 +1,13 @@
 """C08 — RQA line statistics are exact run-length counts of the matrix.
 
 proof  : lean/Pyunicorn/Properties/C08.lean (kernel = run-length specification,
-         accounting identities, sequential = matrix)
-tie    : exact correspondence of the Lean model with the compiled kernels at the
-         kernel boundary and with RecurrencePlot at the object level
+         accounting identities, sequential = matrix with the on-the-fly predicate
+         computed, bootstrap invariants for every draw stream) -- since round 3 about
+         the kernel / wrappers / metric / bootstrap loop REGENERATED from numerics.pyx
+         by translate/gen_C08.py (Generated/StructC08.lean)
+tie    : translator (every run) + exact correspondence of the regenerated kernels
+         with the compiled ones at the kernel boundary (matrix, sequential, missing
+         values, fed random streams) and with RecurrencePlot at the object level
 search : independent run-length counter on rows / diagonals of
          `recurrence_matrix()`, matrix mode vs sequential mode, scalar measures
 """
@@ -103,7 +107,12 @@ def run(ctx):
     ctx.rule = ("kernel level: all symmetric unit-diagonal 0/1 matrices up to "
                 f"{'4x4' if quick else '5x5'} + random (also asymmetric) 0/1 matrices, all/ random "
                 "missing masks; object level: Kuratowski-embedded series realising those matrices, "
-                "sparse_rqa on/off; distinct = distinct (kernel, n, matrix, mask); "
+                "sparse_rqa on/off; round 3: the four sequential kernels on dyadic embeddings (NaN "
+                "coordinates, thresholds equal to a distance, 2^+-20..300 rescalings, C / Fortran / "
+                "strided buffers), NaN series with missing_values on in both modes, embedding, both float "
+                "widths, N = 1, 2, all-black / all-white, l_min != v_min, minimum lengths up to N + 1, "
+                "resampled_dist given, bootstrap on fed and free random streams; "
+                "distinct = distinct (kernel, n, matrix, mask); "
                 "non-trivial = matrix has both colours off the diagonal")
     ctx.proofs()
 
